@@ -6,6 +6,7 @@ import json, sys
 sys.path.insert(0, "/verif")
 from salib import facts, mir
 out = {}
+alt = {}
 for cfg in ("default", "explanations", "checks", "checks_explanations"):
     crate = mir.Crate(facts.load(cfg, "slotted_egraphs"), use_anchors=False)
     per_file = {}
@@ -18,9 +19,12 @@ for cfg in ("default", "explanations", "checks", "checks_explanations"):
             continue
         b = bs[0]
         sig = [b.local_ty(l) for l in range(1, b.argc + 1)] + ["->", b.local_ty(0)]
-        out.setdefault("%s::%s" % (file, name), sig)
+        if out.setdefault("%s::%s" % (file, name), sig) != sig and sig not in alt.setdefault("%s::%s" % (file, name), []):
+            alt["%s::%s" % (file, name)].append(sig)      # (the proof type is `()` without the explanations feature)
 json.dump(out, open("/verif/anchors.json", "w"), indent=0, sort_keys=True)
 print(len(out), "anchors")
+json.dump(alt, open("/verif/anchors_alt.json", "w"), indent=0, sort_keys=True)
+print(len(alt), "functions with a second signature in another configuration")
 # callee names per function (tie-break when several functions of one signature are renamed together)
 calls = {}
 for cfg in ("default", "explanations", "checks", "checks_explanations"):
